@@ -118,6 +118,10 @@ func (p *Processor) Run(ctx context.Context) error {
 				continue
 			}
 
+			// Segments of the partition are handled in order. When one of them
+			// fails, stop for this cycle instead of moving on: committing the
+			// offset of a later segment would checkpoint past the failed one and
+			// its records would be filtered out for good. The next tick retries.
 			for _, seg := range segments {
 				if seg.Topic != activeLease.Topic || seg.Partition != activeLease.Partition {
 					continue
@@ -125,12 +129,12 @@ func (p *Processor) Run(ctx context.Context) error {
 
 				state, err := p.store.LoadOffset(ctx, seg.Topic, seg.Partition)
 				if err != nil {
-					continue
+					break
 				}
 
 				records, err := p.decode.Decode(ctx, seg.SegmentKey, seg.IndexKey, seg.Topic, seg.Partition)
 				if err != nil {
-					continue
+					break
 				}
 				if len(records) == 0 {
 					continue
@@ -148,7 +152,7 @@ func (p *Processor) Run(ctx context.Context) error {
 				err = p.sink.Write(ctx, mapped)
 				unlock()
 				if err != nil {
-					continue
+					break
 				}
 
 				last := mapped[len(mapped)-1]
